@@ -29,19 +29,31 @@ ASSUMPTIONS = [
     'sub-terms are folded in floating point on both sides and constants agreeing to 1e-9 are identified; '
     'denominators are assumed non-zero',
     '(P) the text of a real number is one unsigned literal token, preceded by "-" when negative (no inf/nan)',
+    '(G) g_offsets: the register table (visitor.qubit_regs) is filled by the harness with QubitReg(name, symbolic '
+    'size) and the number tokens of the real parse tree are replaced by symbolic ints (the real `qreg` formats the '
+    'size with %d, which would make CrossHair enumerate it); `qreg`/`get_circuit` run in g_stmt with split sizes',
     '(G) a LangException is an accepted outcome for register broadcast of unitary gates (not implemented by the '
-    'decoder, rejected cleanly); every accepted program must match the reference flat indices',
+    'decoder, rejected cleanly); every accepted program must match the reference flat indices; only valid programs '
+    '(index < register size, distinct qubits, equal sizes in a broadcast) are generated',
+    '(G) the keys of MeasurementPlaceholder.measurements are flat qubit indices (class docstring; the encoder '
+    'writes `measure q[key]`)',
     '(S) equality of decoded and original operation = same location tuple and numerically equal unitary at the '
-    'representative parameters (1e-9); gates without a QASM spelling (qasm_name raises) are outside',
+    'representative parameters (1e-9), parameters equal to 1e-12 when the gate class is unchanged; gates whose '
+    'Operation.get_qasm raises (no QASM spelling) are outside; constructor arguments of parameterised classes come '
+    'from the table in harness/c17_rt.py:_instances',
 ]
 BOUNDS = {
     'quick': '(X) every expression of <=7 tokens over + - * / ^ unary- ( ) and the six functions, leaves x0..x2 '
              '(pi / integer / decimal / exponent literal in each leaf position for <=5 tokens), exponents 2,3; '
-             '(P) one- and two-parameter gate bodies of <=5 tokens, nested bodies of <=3 tokens each, all real '
-             'argument values (sign split); (G) <=3 registers of symbolic size 1..4; (S) 1 operation on 3 qubits / '
-             '2 operations on 2 qubits over every library gate with a QASM spelling',
-    'thorough': '(X) <=9 tokens (leaf literal variants <=7); (P) bodies <=7 tokens, nested <=5 each; (G) sizes 1..6; '
-                '(S) 2 operations on 3 qubits, 3 operations over a reduced catalogue',
+             '(P) one- and two-parameter gate bodies of <=5 tokens (U/CX/named gates, 2-qubit bodies <=4), nested '
+             'bodies of <=3 tokens each, all real argument values (sign split); (G) <=3 registers; index arithmetic '
+             'with symbolic sizes in [1,2^20] (whole-register items: size<=3), whole statements with sizes 1..3 '
+             '(every item pattern of <=3 whole/indexed items); (S) 1 operation on 3 qubits (5 for 4-5 qubit gates), '
+             '2 operations on 2 qubits (every catalogue gate x a 12-gate context set, both orders), 2 operations on '
+             '3 qubits (>=3-qubit gates x context), every library gate with a QASM spelling',
+    'thorough': '(X) <=10 tokens (leaf literal variants <=7); (P) bodies <=7 tokens, nested <=5 each; (G) sizes 1..4, '
+                'all register assignments; (S) 2 operations over the whole catalogue on 2 and 3 qubits, 3 operations '
+                '(context^3 on 3 qubits, context x all x context on 2 qubits)',
 }
 OUTSIDE = ('differential against Qiskit\'s qasm2 loader (its published binding powers are what oracle (X) encodes by '
            'hand); bqskit.ext.{qiskit,cirq,pytket} translators; `if` statements; `include` of files from disk; '
@@ -83,7 +95,12 @@ def obligations(tier: str) -> list[dict]:
         return d
 
     G('g_offsets', 'items1-2', T, [oc(p) for p in ['I', 'W', 'II', 'IW', 'WI']] + [oc('II', 2), oc('W', 1, wmax + 2)])
-    G('g_offsets', 'items3', T, [oc(p) for p in ['III', 'IIW', 'IWI', 'WII', 'WIW', 'IWW']])
+    P3 = ['III', 'IIW', 'IWI', 'WII', 'WIW', 'IWW']
+    if thorough:
+        G('g_offsets', 'items3', T, [oc(p) for p in P3])
+    else:
+        for regs in ([0, 1, 2], [2, 0, 1], [1, 1, 0]):
+            G('g_offsets', 'items3-%s' % ''.join(map(str, regs)), T, [dict(oc(p), regs=regs) for p in P3])
     G('g_offsets', 'idlist', T, [oc(p) for p in ['WW', 'WWI', 'WWW']])
     G('g_stmt', 'cx-II', T, [sc('cx', 'II')])
     G('g_stmt', 'CX-II', T, [sc('CX', 'II')])
@@ -107,31 +124,30 @@ def obligations(tier: str) -> list[dict]:
     def S(name: str, timeout: int, **sh) -> None:
         obs.append({'name': 'S/' + name, 'func': 's_entry', 'kind': 'ch', 'shard': sh, 'timeout': timeout})
 
-    NCAT = 96     # upper bound of the catalogue size (ranges are clipped to the real size)
     S('1op/W3', T, W=3, nops=1, pools=['all'])
     S('1op/W5-wide', T, W=5, nops=1, pools=['wide'], maxloc=12)
     if not thorough:
-        for lo in range(0, NCAT, 24):
-            S('2op/W2/all-context/g%02d' % lo, T, W=2, nops=2, pools=['all', 'context'], range0=[lo, lo + 23])
-            S('2op/W2/context-all/g%02d' % lo, T, W=2, nops=2, pools=['context', 'all'], range1=[lo, lo + 23])
+        for i in range(3):
+            S('2op/W2/all-context/%d' % i, T, W=2, nops=2, pools=['all', 'context'], slice0=[i, 3])
+            S('2op/W2/context-all/%d' % i, T, W=2, nops=2, pools=['context', 'all'], slice1=[i, 3])
         S('2op/W3/wide-context', T, W=3, nops=2, pools=['wide', 'context'], maxloc=3)
         S('2op/W3/context-wide', T, W=3, nops=2, pools=['context', 'wide'], maxloc=3)
     else:
-        for lo in range(0, NCAT, 6):
-            S('2op/W2/g%02d' % lo, T, W=2, nops=2, pools=['all', 'all'], range0=[lo, lo + 5])
-        for lo in range(0, NCAT, 3):
-            S('2op/W3/g%02d' % lo, T, W=3, nops=2, pools=['all', 'all'], range0=[lo, lo + 2], maxloc=6)
-        for lo in range(0, 12, 2):
-            S('3op/W3/c%02d' % lo, T, W=3, nops=3, pools=['context', 'context', 'context'], range0=[lo, lo + 1], maxloc=6)
-        for lo in range(0, NCAT, 6):
-            S('3op/W2/g%02d' % lo, T, W=2, nops=3, pools=['context', 'all', 'context'], range1=[lo, lo + 5])
+        for i in range(12):
+            S('2op/W2/%02d' % i, T, W=2, nops=2, pools=['all', 'all'], slice0=[i, 12])
+        for i in range(32):
+            S('2op/W3/%02d' % i, T, W=3, nops=2, pools=['all', 'all'], slice0=[i, 32], maxloc=6)
+        for i in range(6):
+            S('3op/W3/context/%d' % i, T, W=3, nops=3, pools=['context', 'context', 'context'], slice0=[i, 6], maxloc=3)
+        for i in range(12):
+            S('3op/W2/%02d' % i, T, W=2, nops=3, pools=['context', 'all', 'context'], slice1=[i, 12])
 
     ARGS = [['x0'], ['-', 'x0'], ['x0', '-', 'x1'], ['x0', '*', 'x1'], ['x0', '/', '3']]
     if not thorough:
-        X('base', 1, 6, 400)
-        X('base', 7, 7, 400)
-        for f in FUNCS + ['mixed']:
-            X('fn-' + f, 1, 7, 400)
+        X('base', 1, 7, 400)
+        X('fn-sin+fn-cos+fn-tan+fn-ln+fn-mixed', 1, 7, 400)
+        X('fn-exp', 1, 7, 400)
+        X('fn-sqrt', 1, 7, 400)
         X('leaf', 1, 5, 400)
         P('one', 1, 5, 400, args=ARGS)
         P('two', 1, 5, 400)
@@ -143,7 +159,9 @@ def obligations(tier: str) -> list[dict]:
         X('base', 10, 10, 2400)
         for f in FUNCS + ['mixed']:
             X('fn-' + f, 1, 9, 1500)
-            X('fn-' + f, 10, 10, 2400)
+        X('fn-sin+fn-cos+fn-tan', 10, 10, 2400)
+        X('fn-exp+fn-ln+fn-sqrt', 10, 10, 2400)
+        X('fn-mixed', 10, 10, 2400)
         X('leaf', 1, 6, 1500)
         X('leaf', 7, 7, 2400)
         P('one', 1, 6, 1500, args=ARGS)
